@@ -162,7 +162,7 @@ def _recoverable_np21_replacement(F, raw):
     return f is not None and bool(f.exists) and isinstance(f.content, Cbin) and f.content.complete and f.content.source is raw
 
 
-def case_history(ctx, kind, ns, fault1, overwrite1, second, third=None):
+def case_history(ctx, kind, ns, fault1, overwrite1, second, third=None, fault2=None):
     """run 1 (optionally interrupted at op fault1), then run 2 = second in {None,'F','T'}, run 3 = third"""
     F, raw, nc = _mk_original(kind, ns)
     opts = {"post_check": bool(ctx.bool("post_check")), "compress": bool(ctx.bool("compress")), "delete_original": bool(ctx.bool("delete_original"))}
@@ -198,7 +198,24 @@ def case_history(ctx, kind, ns, fault1, overwrite1, second, third=None):
     if not bool(F.exists(ORIG)) and kind == "NP2.4":
         return   # original legitimately deleted: no further run possible on it
     log2 = {}
-    r2 = _run(ctx, F, raw, ns, p, kind, opts, second == "T", None, log2)
+    r2 = _run(ctx, F, raw, ns, p, kind, opts, second == "T", fault2, log2)
+    if fault2 is not None:
+        if not isinstance(r2, InjectedFault):
+            ctx.oblige("fault_index_beyond_run", fault2 >= log2["ops"])
+            return
+        fop = log2.get("fault_op")
+        ctx.oblige("original_recoverable_after_interrupted_rerun", _recoverable(ctx, F, raw, ns, p, kind), detail={"opts": opts, "fault2": fault2, "fault_op": fop})
+        ctx.oblige("original_unlinked_only_when_replacement_complete", all(log2["unlink_ok"]), detail={"opts": opts, "fault_op": fop})
+        if third is None or (not bool(F.exists(ORIG)) and kind == "NP2.4"):
+            return
+        log3 = {}
+        r3 = _run(ctx, F, raw, ns, p, kind, opts, third == "T", None, log3)
+        ctx.oblige("original_recoverable_after_run3", _recoverable(ctx, F, raw, ns, p, kind), detail={"opts": opts, "fault2": fault2, "fault_op": fop})
+        if third == "T" and kind == "NP2.4":
+            ctx.oblige("forced_rerun_does_not_raise", not isinstance(r3, Exception), detail={"exception": repr(r3)[:200], "opts": opts, "fault2": fault2, "fault_op": fop})
+            if not isinstance(r3, Exception):
+                ctx.oblige("forced_rerun_leaves_complete_valid_set", r3 == 1 and _valid_set(ctx, F, ns, p, opts["compress"]), detail={"opts": opts, "fault2": fault2, "fault_op": fop})
+        return
     ctx.oblige("original_recoverable_after_run2", _recoverable(ctx, F, raw, ns, p, kind), detail={"opts": opts, "fault": fault1, "fault_op": fop, "second": second, "result": repr(r2)[:120]})
     ctx.oblige("original_unlinked_only_when_replacement_complete", all(log2["unlink_ok"]), detail={"opts": opts})
     if second == "F" and not crashed1 and kind in ("NP2.4", "NP2.1"):
@@ -234,6 +251,10 @@ def cases(tier):
         # interrupted first run, then retry forced / not forced
         for k in range(0, b["max_ops"], b["fault_stride"]):
             cs.append(Case(f"np24_ns{ns}_fault{k}_thenT", "case_history", {"kind": "NP2.4", "ns": ns, "fault1": k, "overwrite1": False, "second": "T"}, timeout_s=2400))
+    if tier == "thorough":
+        # a complete run, then a forced re-run interrupted at every operation, then a forced re-run
+        for k in range(0, b["max_ops"], 2):
+            cs.append(Case(f"np24_complete_then_fault{k}_thenT", "case_history", {"kind": "NP2.4", "ns": 600, "fault1": None, "overwrite1": False, "second": "T", "third": "T", "fault2": k}, timeout_s=2400))
     for second in (None, "F", "T"):
         cs.append(Case(f"np21_then{second}", "case_history", {"kind": "NP2.1", "ns": 600, "fault1": None, "overwrite1": False, "second": second}, timeout_s=2400))
     cs.append(Case("np21_overwrite_fresh", "case_history", {"kind": "NP2.1", "ns": 600, "fault1": None, "overwrite1": True, "second": None}, timeout_s=2400))
